@@ -7,7 +7,8 @@
    element.  Resolution terminates for every snippet table, including self-referencing and mutually
    recursive user snippets, with nesting no deeper than the number of snippets. *)
 From Emmet Require Import lib.Base model.MarkupTokenizer model.MarkupParser model.MarkupConvert
-     model.MarkupResolve model.MarkupExpand proofs.SnippetProofs proofs.SnippetSweep.
+     model.MarkupResolve model.MarkupExpand proofs.SnippetProofs proofs.SnippetSweep
+     proofs.SnippetAcyclic proofs.SnippetAliasParse.
 
 (* termination, for ALL snippet tables and ALL trees: with the fuel markup_parse supplies
    (number of snippets + 1) the resolver never reports OutOfFuel *)
@@ -97,6 +98,185 @@ Theorem C14_sweep_complete :
     In (name, (k, d)) all_table_entries -> In (name, (k, d)) all_alias_pairs.
 Proof. exact sweep_complete. Qed.
 Print Assumptions C14_sweep_complete.
+
+(* ================================================================ alias = definition, for ALL tables
+   that are acyclic in the sense that matters.
+
+   [mentions cfg s]: the definitions the snippet text [s] refers to = every node, at any depth, of [s] as
+   resolve() parses it whose name is a key of the table with a non-empty value.
+   [acyclic_from cfg d] (bool): the depth-first walk along [mentions] from [d] never meets a definition
+   that is on its own path -- the situation in which the cycle guard would cut -- within |snippets|
+   levels.  [acyclic_table cfg] = [acyclic_from] for every value of the table. *)
+
+(* the decidable predicates say: no snippet value reaches itself through the names it mentions *)
+Theorem C14_acyclic_table_means :
+  forall cfg : mconfig,
+    acyclic_table cfg = true <-> (forall s, In s (snippet_values cfg) -> ~ reaches cfg s s).
+Proof. exact acyclic_table_spec. Qed.
+Print Assumptions C14_acyclic_table_means.
+
+Theorem C14_acyclic_from_means :
+  forall (cfg : mconfig) (d : str), In d (snippet_values cfg) ->
+    (acyclic_from cfg d = true <-> (forall t, t = d \/ reaches cfg d t -> ~ reaches cfg t t)).
+Proof. exact acyclic_from_spec. Qed.
+Print Assumptions C14_acyclic_from_means.
+
+(* where the guard cannot fire (every definition the forest refers to is safe w.r.t. [path]) the result
+   of the resolver does not depend on the guard stack, for any fuel *)
+Theorem C14_guard_stack_irrelevant :
+  forall (cfg : mconfig) (fuel f : nat) (path st1 st2 : list str) (l : list anode),
+    incl st1 path -> incl st2 path ->
+    forallb (safe f cfg path) (forest_defs cfg l) = true ->
+    walk_resolve fuel cfg st1 l = walk_resolve fuel cfg st2 l.
+Proof. exact walk_stack_indep. Qed.
+Print Assumptions C14_guard_stack_irrelevant.
+
+(* a key written over letters, ASCII digits, `-` `_` `:` `!` (all built-in keys are) is one bare node *)
+Theorem C14_key_is_one_node :
+  forall (jsx : bool) (env : cenv) (mr : option N) (k : str),
+    key_text k = true -> ce_text env = WNone ->
+    parse_abbr jsx env mr k = Ok [ANode (Some k) None None None [] false].
+Proof. exact parse_abbr_key. Qed.
+Print Assumptions C14_key_is_one_node.
+
+(* THE statement: for EVERY snippet table, every key k with definition d from which the table is
+   acyclic, every configuration without wrap text in which the definition text reads the same in the
+   abbreviation as in the table (same_reading: resolve() parses definitions with jsx off and
+   user_config['max_repeat']): the resolved and transformed tree of `k` is that of `d`.
+   (resolve_def = parse the definition + resolve it at top level with the empty guard stack and the
+   full fuel, i.e. the definition in the alias' place.) *)
+Theorem C14_alias_eq_definition :
+  forall (cfg : mconfig) (k d : str),
+    key_text k = true ->
+    def_of cfg (Some k) = Some d -> acyclic_from cfg d = true ->
+    mc_text cfg = WNone -> same_reading cfg d ->
+    markup_parse cfg k = markup_parse cfg d.
+Proof. exact alias_eq_definition. Qed.
+Print Assumptions C14_alias_eq_definition.
+
+(* ... hence the same output string, in every syntax / output profile *)
+Theorem C14_alias_eq_definition_expand :
+  forall (x : xconfig) (k d : str),
+    key_text k = true ->
+    def_of (xc_m x) (Some k) = Some d -> acyclic_from (xc_m x) d = true ->
+    mc_text (xc_m x) = WNone -> same_reading (xc_m x) d ->
+    expand_markup_str x k = expand_markup_str x d.
+Proof. exact alias_eq_definition_expand. Qed.
+Print Assumptions C14_alias_eq_definition_expand.
+
+(* configuration-level form: every key of an acyclic table, jsx off, no wrap text, one max_repeat *)
+Theorem C14_alias_eq_definition_table :
+  forall (cfg : mconfig) (k d : str),
+    acyclic_table cfg = true ->
+    key_text k = true -> def_of cfg (Some k) = Some d ->
+    mc_jsx cfg = false -> mc_text cfg = WNone -> mc_max_repeat cfg = mc_max_repeat_snip cfg ->
+    markup_parse cfg k = markup_parse cfg d.
+Proof. exact alias_eq_definition_table. Qed.
+Print Assumptions C14_alias_eq_definition_table.
+
+(* the decorated alias, as a theorem about walk_resolve at the top level of an abbreviation (guard stack
+   empty, full fuel), for all tables acyclic from d: the definition RESOLVED IN PLACE, each top-level
+   node merged with the alias, the alias' resolved children under find_deepest; a definition that
+   resolves to the empty forest drops the alias and its children (deepest is the Abbreviation itself) *)
+Theorem C14_alias_decorated :
+  forall (cfg : mconfig) (k d : str) v rp at_ ch sc,
+    def_of cfg (Some k) = Some d -> acyclic_from cfg d = true ->
+    walk_resolve (full_fuel cfg) cfg [] [ANode (Some k) v rp at_ ch sc] =
+    let* resolved := resolve_def cfg d in
+    let tops := map (merge_into (mc_reverse_attrs cfg) (ANode (Some k) v rp at_ ch sc)) resolved in
+    match tops with
+    | [] => Ok []
+    | _ :: _ => let* kids := walk_resolve (full_fuel cfg) cfg [] ch in Ok (attach_deepest tops kids)
+    end.
+Proof. exact alias_eq_definition_decorated. Qed.
+Print Assumptions C14_alias_decorated.
+
+(* `k[attrs]` / `k.c` / `k#i` = the definition with those attributes appended to the attribute list of each
+   top-level node; under reverseAttributes they are put in FRONT of the definition's own *)
+Theorem C14_alias_attributes :
+  forall (cfg : mconfig) (k d : str) a at_,
+    def_of cfg (Some k) = Some d -> acyclic_from cfg d = true ->
+    walk_resolve (full_fuel cfg) cfg [] [ANode (Some k) None None (Some (a :: at_)) [] false] =
+    let* resolved := resolve_def cfg d in Ok (map (add_attrs (mc_reverse_attrs cfg) (a :: at_)) resolved).
+Proof. exact alias_attributes. Qed.
+Print Assumptions C14_alias_attributes.
+
+(* `k*N`: each copy of the alias is replaced by the definition's top-level nodes carrying its repeater *)
+Theorem C14_alias_repeat :
+  forall (cfg : mconfig) (k d : str) r,
+    def_of cfg (Some k) = Some d -> acyclic_from cfg d = true ->
+    walk_resolve (full_fuel cfg) cfg [] [ANode (Some k) None (Some r) None [] false] =
+    let* resolved := resolve_def cfg d in Ok (map (set_repeat r) resolved).
+Proof. exact alias_repeat. Qed.
+Print Assumptions C14_alias_repeat.
+
+(* `k{text}`: the text replaces the value of each top-level node; `k/`: each is self-closing *)
+Theorem C14_alias_text :
+  forall (cfg : mconfig) (k d : str) x,
+    def_of cfg (Some k) = Some d -> acyclic_from cfg d = true ->
+    walk_resolve (full_fuel cfg) cfg [] [ANode (Some k) (Some x) None None [] false] =
+    let* resolved := resolve_def cfg d in Ok (map (set_value x) resolved).
+Proof. exact alias_text. Qed.
+Print Assumptions C14_alias_text.
+
+Theorem C14_alias_self_closing :
+  forall (cfg : mconfig) (k d : str),
+    def_of cfg (Some k) = Some d -> acyclic_from cfg d = true ->
+    walk_resolve (full_fuel cfg) cfg [] [ANode (Some k) None None None [] true] =
+    let* resolved := resolve_def cfg d in Ok (map set_self resolved).
+Proof. exact alias_self_closing. Qed.
+Print Assumptions C14_alias_self_closing.
+
+(* `k>children`: the definition's forest with the resolved children appended below the end of the
+   last-child chain of its last top-level node (whatever that node is: element or text node) *)
+Theorem C14_alias_children :
+  forall (cfg : mconfig) (k d : str) ch,
+    def_of cfg (Some k) = Some d -> acyclic_from cfg d = true ->
+    walk_resolve (full_fuel cfg) cfg [] [ANode (Some k) None None None ch false] =
+    let* resolved := resolve_def cfg d in
+    match resolved with
+    | [] => Ok []
+    | _ :: _ => let* kids := walk_resolve (full_fuel cfg) cfg [] ch in Ok (attach_deepest resolved kids)
+    end.
+Proof. exact alias_children. Qed.
+Print Assumptions C14_alias_children.
+
+(* an alias inside a larger abbreviation: siblings resolve independently (with C14_non_alias_kept for
+   the ancestors this places the theorems above at any position below non-alias elements) *)
+Theorem C14_resolve_siblings :
+  forall f cfg st l1 l2,
+    walk_resolve (S f) cfg st (l1 ++ l2) =
+    let* a := walk_resolve (S f) cfg st l1 in
+    let* b := walk_resolve (S f) cfg st l2 in Ok (a ++ b).
+Proof. exact walk_resolve_app. Qed.
+Print Assumptions C14_resolve_siblings.
+
+(* the reason for the acyclicity hypothesis: a = `b.x`, b = `a.y`; `a` gives <a class="y x">, its
+   definition `b.x` written in place gives <b class="x y x"> (the guard cuts one level later);
+   the same on the implementation (corpus/C14/cyclic-cut.json).  Not a violation of the statement:
+   resolution terminates on both sides. *)
+Theorem C14_cyclic_cut_refuted :
+  key_text [97]%N = true /\ def_of cyc_cfg (Some [97]%N) = Some [98;46;120]%N /\
+  same_reading cyc_cfg [98;46;120]%N /\ mc_text cyc_cfg = WNone /\
+  acyclic_from cyc_cfg [98;46;120]%N = false /\
+  (exists t1 t2, markup_parse cyc_cfg [97]%N = Ok t1 /\ markup_parse cyc_cfg [98;46;120]%N = Ok t2 /\ t1 <> t2).
+Proof. exact cyclic_cut_refuted. Qed.
+Print Assumptions C14_cyclic_cut_refuted.
+
+(* the reason for `mc_text cfg = WNone`: with text = '' (or []) the converter writes the empty text on the
+   alias node, and that value replaces the definition's text: x = `p{hi}` gives <p></p>, `p{hi}` gives <p>hi</p> *)
+Theorem C14_empty_text_differs :
+  acyclic_from txt_cfg [112;123;104;105;125]%N = true /\
+  (exists t1 t2, markup_parse txt_cfg [120]%N = Ok t1 /\ markup_parse txt_cfg [112;123;104;105;125]%N = Ok t2 /\ t1 <> t2).
+Proof. exact empty_text_differs. Qed.
+Print Assumptions C14_empty_text_differs.
+
+(* non-vacuity of the acyclic theorem: nested aliases, a two-node definition, a key with `:` *)
+Example C14_acyclic_nonvacuous :
+  acyclic_table acy_cfg = true /\ key_text [117;58;120]%N = true /\
+  def_of acy_cfg (Some [117;58;120]%N) = Some [118;46;99;43;112]%N /\
+  exists t, markup_parse acy_cfg [117;58;120]%N = Ok t /\ length t = 2.
+Proof. exact alias_eq_definition_nonvacuous. Qed.
 
 (* non-vacuity: a mutually recursive table resolves (a -> b.x -> a.y stops at the guard) *)
 Example C14_nonvacuous :
